@@ -189,6 +189,7 @@ class BaseOdeModel(object):
         # kill me when you read this.
         # TODO: Would be good to clean this up.
         param_out = dict()
+        stochastic_param = None
         if parameters is not None:
             # currently only accept 3 main types here, obviously apart
             # from the dict type below
@@ -257,7 +258,7 @@ class BaseOdeModel(object):
                         # output of the rv from a frozen distribution is a
                         # np.ndarray even when the number of sample is one
                         ## Now we are going make damn sure to record it down!
-                        self._stochasticParam = parameters
+                        stochastic_param = parameters
                     elif isinstance(value, tuple):
                         if callable(value[0]):
                             # using a temporary variable to shorten the line.
@@ -267,7 +268,7 @@ class BaseOdeModel(object):
                                 paramTemp = value[0](1, *value[1])
 
                             param_out[f(inParam)] = paramTemp
-                            self._stochasticParam = parameters
+                            stochastic_param = parameters
                         else:
                             raise InputError("First element should be a " +
                                              "callable when using multi " +
@@ -311,6 +312,8 @@ class BaseOdeModel(object):
 
         self._parameters = param_out
         self._paramValue = param_value
+        if stochastic_param is not None:
+            self._stochasticParam = stochastic_param
 
         self.set_sp()
 
